@@ -391,8 +391,69 @@ let cmd_emstack () =
     done
   with End_of_file -> ()
 
+(* ---------------- signatures: "F v p.. > r.. | P v p.. > r.. | FB k | INV b" -> ACCEPT.. / REJECT diags *)
+let cmd_sigtask () =
+  let ty = function "c" -> GCtx | "e" -> GErr | "b" -> GBool | n -> GVal (nat n) in
+  let tyname = function GCtx -> "c" | GErr -> "e" | GBool -> "b" | GVal n -> string_of_int (int_of_nat n) in
+  let sg toks = match toks with
+    | v :: rest ->
+      let rec split acc = function ">" :: r -> (List.rev acc, r) | x :: r -> split (x :: acc) r | [] -> (List.rev acc, []) in
+      let (ps, rs) = split [] rest in
+      { sg_variadic = (v = "1"); sg_params = List.map ty ps; sg_results = List.map ty rs }
+    | [] -> { sg_variadic = false; sg_params = []; sg_results = [] } in
+  let dname = function
+    | SVariadic -> "SVariadic" | SCtxPos -> "SCtxPos" | SErrPos -> "SErrPos" | SPredResult -> "SPredResult"
+    | SFbCount -> "SFbCount" | SFbNoErr -> "SFbNoErr" | SNoOutput -> "SNoOutput" | SInvokeWithOutput -> "SInvokeWithOutput" in
+  try
+    while true do
+      let line = input_line stdin in
+      let fn = ref (sg []) and pred = ref None and fb = ref None and inv = ref false in
+      List.iter (fun part -> match split_ws part with
+        | "F" :: r -> fn := sg r
+        | "P" :: r -> pred := Some (sg r)
+        | ["FB"; k] -> fb := Some (nat k)
+        | ["INV"; b] -> inv := (b = "1")
+        | _ -> ()) (String.split_on_char '|' line);
+      let t = { td_fn = !fn; td_pred = !pred; td_fallback = !fb; td_invoke = !inv } in
+      match compile_task t with
+      | [] ->
+        (match compile_function !fn with
+         | Inl f ->
+           let l xs = if xs = [] then "-" else String.concat "," (List.map tyname xs) in
+           Printf.printf "ACCEPT wc=%b ins=%s outs=%s he=%b\n" f.cf_wantctx (l f.cf_inputs) (l f.cf_outputs) f.cf_haserr
+         | Inr _ -> print_endline "ACCEPT ?")
+      | ds -> print_endline ("REJECT " ^ String.concat "," (List.map dname ds))
+    done
+  with End_of_file -> ()
+
+(* ---------------- file selection: "S in=out,in= | F dir base fail emits ; F ..." -> "EXIT b | W dir/name ; ..." *)
+let cmd_filesel () =
+  let codes str = List.init (String.length str) (fun i -> nat_of_int (Char.code str.[i])) in
+  let text cs = String.concat "" (List.map (fun c -> String.make 1 (Char.chr (int_of_nat c))) cs) in
+  try
+    while true do
+      let line = input_line stdin in
+      let sel = ref [] and files = ref [] in
+      List.iter (fun part -> match split_ws part with
+        | "S" :: args -> sel := List.map (fun a -> match String.index_opt a '=' with
+            | Some i -> (codes (String.sub a 0 i), codes (String.sub a (i + 1) (String.length a - i - 1)))
+            | None -> (codes a, [])) args
+        | ["F"; d; b; fl; em] -> files := !files @ [{ sf_dir = nat d; sf_base = codes b; sf_fail = (fl = "1"); sf_emits = (em = "1") }]
+        | _ -> ()) (List.concat_map (String.split_on_char ';') (String.split_on_char '|' line));
+      let r = run_tool !sel !files in
+      let ws = match r with
+        | None -> []
+        | Some o -> List.map (fun (p, _) -> match p with
+            | ODefault (d, n) -> Printf.sprintf "%d/%s" (int_of_nat d) (text n)
+            | OExplicit o -> "=" ^ text o) o.written in
+      Printf.printf "EXIT %s | W %s\n" (if r = None then "dup" else if exit_nonzero r then "1" else "0") (String.concat " ; " ws)
+    done
+  with End_of_file -> ()
+
 let () =
   match Array.to_list Sys.argv with
+  | _ :: "filesel" :: _ -> cmd_filesel ()
+  | _ :: "sigtask" :: _ -> cmd_sigtask ()
   | _ :: "flowobs" :: _ -> cmd_flowobs ()
   | _ :: "prologue" :: _ -> cmd_prologue ()
   | _ :: "emstack" :: _ -> cmd_emstack ()
